@@ -15,6 +15,7 @@ import Shm.Store.CodecLemmas
 import Shm.Lemmas.Kept
 import Shm.Gen.StoreSample
 import Shm.Store.DiskView
+import Shm.Lemmas.PureThms
 namespace Shm.C05
 open Shm Shm.Store
 
@@ -201,3 +202,20 @@ theorem C05_nature_fixed (s : State) (cs : List AnyCall) (o' : Obj) (ho : o' ∈
   · omega
 
 end Shm.C05
+
+/-! ### the stored encodings are built from `ByteString::serialise` / `chainDeserialise` (unit-tied definitions of Shm/Pure) -/
+namespace Shm.Pure
+open Shm
+
+/-- **serialised byte strings chain**: what `serialise` wrote is read back exactly by `chainDeserialise`, and the rest of the chain is left for the next read -
+    for every value below 2^64 bytes and every continuation -/
+theorem C05_serialise_roundtrip (b rest : Bytes) (h : b.length < 2 ^ 64) : chainDeserialise (serialise b ++ rest) = (b, rest) := ser_roundtrip b rest h
+
+/-- `ByteString(unsigned long)` / `long_val` are inverse on 64-bit values (lengths, generation numbers, attribute types and kinds are stored this way) -/
+theorem C05_ulong_roundtrip (n : Nat) (h : n < 2 ^ 64) : longVal (ofULong n) = n := by
+  unfold longVal ofULong
+  rw [List.take_of_length_le (by simp [Shm.Store.be8_length]), Shm.Store.beVal_be8 n h]
+
+example : chainDeserialise (serialise [1, 2, 3] ++ serialise [9]) = ([1, 2, 3], serialise [9]) ∧ longVal (ofULong 258) = 258 := by decide
+
+end Shm.Pure
